@@ -313,26 +313,160 @@ Definition values_ok (cfg : config) (page : str) : bool :=
   end.
 Definition page_ok (cfg : config) (page : str) : bool := values_ok cfg page && options_ok page.
 
+(* ----------------------- context safety, judged on pages alone (no template) -- *)
+(* The lexical skeleton of a page: the text of <title> is dropped (RCDATA up to
+   the end tag), everything up to and including <script type="module"> is kept,
+   the module script is lexed as ECMAScript with every string literal collapsed
+   to its two quotes and comments dropped, up to the </script that ends it, and
+   the remainder of the page is kept.  A configured value that stays inside
+   its string / title context leaves no trace in the skeleton, so the page of a
+   configuration and the page of the NEUTRAL configuration of the same shape
+   (every configured string replaced by x, map keys by k0, k1, ...) have the
+   same skeleton.  A value that ends its string, its script or its title changes
+   the skeleton (extra code characters, extra literals) or makes it undefined.
+   Nothing here looks at template_gen: the judgement works on whatever the
+   library rendered, also when the template has left the translated subset. *)
+Definition ocons (c : cp) (o : option str) : option str :=
+  match o with Some l => Some (c :: l) | None => None end.
+Definition head_is (c : cp) (s : str) : bool := match s with x :: _ => x =? c | [] => false end.
+
+(* states: 0 code, 1 '...', 2 "...", 3 `...`, 4 // comment, 5 /* comment.
+   None: a literal is cut by a raw line terminator, contains </script or <!--
+   (the HTML tokenizer decides the end of the script, not the JS lexer), the
+   page ends inside the script, or a template literal has a ${ substitution
+   (not modelled). *)
+Fixpoint js_skel (st : N) (s : str) {struct s} : option str :=
+  match s with
+  | [] => None
+  | c :: r =>
+    if st =? 0 then
+      if (c =? 60) && starts_ci P_SCRIPT_END r then Some s
+      else if c =? 39 then ocons c (js_skel 1 r)
+      else if c =? 34 then ocons c (js_skel 2 r)
+      else if c =? 96 then ocons c (js_skel 3 r)
+      else if (c =? 47) && head_is 47 r then js_skel 4 r
+      else if (c =? 47) && head_is 42 r then match r with _ :: r' => js_skel 5 r' | [] => None end
+      else ocons c (js_skel 0 r)
+    else if st =? 4 then
+      if (c =? 60) && starts_ci P_SCRIPT_END r then Some s
+      else if (c =? 10) || (c =? 13) || (c =? 8232) || (c =? 8233) then ocons c (js_skel 0 r)
+      else js_skel 4 r
+    else if st =? 5 then
+      if (c =? 60) && starts_ci P_SCRIPT_END r then Some s
+      else if (c =? 42) && head_is 47 r then match r with _ :: r' => js_skel 0 r' | [] => None end
+      else js_skel 5 r
+    else
+      let q := if st =? 1 then 39 else if st =? 2 then 34 else 96 in
+      if c =? q then ocons c (js_skel 0 r)
+      else if c =? 92 then
+        match r with
+        | [] => None
+        | 13 :: 10 :: r'' => js_skel st r''
+        | _ :: r' => js_skel st r'
+        end
+      else if negb (st =? 3) && ((c =? 10) || (c =? 13)) then None
+      else if (c =? 60) && (starts_ci P_SCRIPT_END r || starts_ci P_COMMENT r) then None
+      else if (st =? 3) && (c =? 36) && head_is 123 r then None
+      else js_skel st r
+  end.
+
+(* (prefix up to and including the first [pat], what follows it) *)
+Fixpoint split_after (pat s : str) {struct s} : option (str * str) :=
+  match strip_prefix pat s with
+  | Some r => Some (pat, r)
+  | None => match s with
+            | [] => None
+            | c :: r => match split_after pat r with
+                        | Some (p, q) => Some (c :: p, q)
+                        | None => None
+                        end
+            end
+  end.
+
+Definition S_TITLE_OPEN : str := [60; 116; 105; 116; 108; 101; 62].                     (* <title> *)
+Definition S_MODULE : str :=
+  [60;115;99;114;105;112;116;32;116;121;112;101;61;34;109;111;100;117;108;101;34;62].   (* <script type="module"> *)
+
+Definition page_skel (page : str) : option str :=
+  let '(head, body) := match split_after S_TITLE_OPEN page with
+                       | Some (p, q) => match rcdata q with
+                                        | ROk _ rest => (Some p, rest)
+                                        | RErr _ => (None, [])
+                                        end
+                       | None => (Some [], page)
+                       end in
+  match head, split_after S_MODULE body with
+  | Some h, Some (p, q) => match js_skel 0 q with
+                           | Some k => Some (h ++ p ++ k)
+                           | None => None
+                           end
+  | _, _ => None
+  end.
+
+Definition skel_eqb (a b : option str) : bool :=
+  match a, b with Some x, Some y => gstr_eqb x y | _, _ => false end.
+(* [page]: what the library rendered for the configuration; [neutral]: what it
+   rendered for the neutral configuration of the same shape *)
+Definition ctx_safe (page neutral : str) : bool := skel_eqb (page_skel page) (page_skel neutral).
+
+Definition NEUTRAL : str := [120].
+Fixpoint neutral_list (i : N) (l : list (str * str)) : list (str * str) :=
+  match l with
+  | [] => []
+  | _ :: r => ([107; 48 + i], NEUTRAL) :: neutral_list (i + 1) r
+  end.
+Definition neutral_cfg (cfg : config) : config :=
+  {| c_endpoint := NEUTRAL;
+     c_sub := match c_sub cfg with Some _ => Some NEUTRAL | None => None end;
+     c_version := c_version cfg;
+     c_headers := match c_headers cfg with Some l => Some (neutral_list 0 l) | None => None end;
+     c_ws := match c_ws cfg with Some l => Some (neutral_list 0 l) | None => None end;
+     c_title := match c_title cfg with Some _ => Some NEUTRAL | None => None end;
+     c_cred := c_cred cfg |}.
+
 (* ------------------------------------------------------- known classes ------ *)
+(* class 1: characters the HTML escaper rewrites to &#NN; — the script sees the
+   entity text, not the configured value, but the value stays in its literal *)
+Definition ent_char (c : cp) : bool :=
+  (c =? 38) || (c =? 60) || (c =? 62) || (c =? 34) || (c =? 39).
+(* class 3: characters the escaper passes through although they are not plain in
+   a JS string literal: backslash (escape sequences; before the closing quote
+   it swallows it) and the raw line terminators LF CR (the literal is cut) *)
+Definition bs_char (c : cp) : bool := (c =? 92) || (c =? 10) || (c =? 13).
 (* characters that do not survive HTML-escaping + JS string evaluation *)
-Definition kc_char (c : cp) : bool :=
-  (c =? 38) || (c =? 60) || (c =? 62) || (c =? 34) || (c =? 39) || (c =? 92) || (c =? 10) || (c =? 13).
+Definition kc_char (c : cp) : bool := ent_char c || bs_char c.
 Definition kc (s : str) : bool := existsb kc_char s.
-Definition kc_pairs (o : option (list (str * str))) : bool :=
-  match o with Some l => existsb (fun p => kc (fst p) || kc (snd p)) l | None => false end.
-Definition cfg_kc (cfg : config) : bool :=
-  kc (c_endpoint cfg) || (match c_sub cfg with Some s => kc s | None => false end) ||
-  kc_pairs (c_headers cfg) || kc_pairs (c_ws cfg).
+Definition cfg_any (f : str -> bool) (cfg : config) : bool :=
+  let pairs o := match o with Some l => existsb (fun p : str * str => f (fst p) || f (snd p)) l | None => false end in
+  f (c_endpoint cfg) || (match c_sub cfg with Some s => f s | None => false end) ||
+  pairs (c_headers cfg) || pairs (c_ws cfg).
+Definition cfg_ent (cfg : config) : bool := cfg_any (existsb ent_char) cfg.
+Definition cfg_bs (cfg : config) : bool := cfg_any (existsb bs_char) cfg.
 (* both option blocks present: the template puts no comma between them *)
 Definition cfg_both (cfg : config) : bool := is_some (c_headers cfg) && is_some (c_ws cfg).
 
-Definition known_class (cfg : config) : N := if cfg_kc cfg then 1 else if cfg_both cfg then 2 else 0.
+Definition known_class (cfg : config) : N :=
+  if cfg_bs cfg then 3 else if cfg_ent cfg then 1 else if cfg_both cfg then 2 else 0.
 
-(* per-case verdict: [page] is what GraphiQLSource::finish returned *)
-Definition check_case (c : config * str) : N :=
-  let '(cfg, page) := c in
+(* per-case verdict: [page] is what GraphiQLSource::finish returned for the
+   configuration, [neutral] what it returned for the neutral configuration of
+   the same shape.  Two judgements: every value verbatim (page_ok, walks the
+   translated template) and every value inside its context (ctx_safe, pages
+   only).  A context break on the REAL page outside class 3 is never excused
+   by a known class: a configuration full of quotes is in class 1 because its
+   values arrive entity-escaped, not because they may leave their literal. *)
+Definition check_case (c : config * str * str) : N :=
+  let '(cfg, page, neutral) := c in
   let m := render cfg in
-  verdict (gstr_eqb page m) (page_ok cfg m) (page_ok cfg page) (known_class cfg).
+  let eqm := gstr_eqb page m in
+  let sp := page_skel page in
+  let sn := page_skel neutral in
+  let safe_impl := skel_eqb sp sn in
+  let safe_model :=
+      let nm := render (neutral_cfg cfg) in
+      skel_eqb (if eqm then sp else page_skel m) (if gstr_eqb neutral nm then sn else page_skel nm) in
+  if negb safe_impl && negb (cfg_bs cfg) then (if eqm then V_THEOREM_GAP else V_VIOLATION)
+  else verdict eqm (page_ok cfg m && safe_model) (page_ok cfg page && safe_impl) (known_class cfg).
 
 (* SYN: node --check on the real page's module script vs options_ok *)
 Definition check_syn (c : str * bool) : N :=
